@@ -37,6 +37,17 @@ def call(f):
         return type(e).__name__
 
 
+PER_SIGNATURE = 3
+
+
+def report(run, obj, signature):
+    """at most PER_SIGNATURE replays per shape signature; the rest is only counted"""
+    n = run.cov.setdefault("flagged_by_signature", {})
+    n[signature] = n.get(signature, 0) + 1
+    if n[signature] <= PER_SIGNATURE:
+        run.violation(obj, signature=signature)
+
+
 def set_dis(dis):
     from src.generators.config import cfg
     old = (cfg.dis.use_site_variance, cfg.dis.use_site_contravariance)
@@ -258,7 +269,7 @@ def stream_update_bound_rec(run, ntables):
                 # specification side (updateBoundRec_chain): every indexed chain variable is assigned t or a supertype
                 b = getattr(start, "bound", None) if isinstance(start, tp.TypeParameter) else None
                 while isinstance(b, tp.TypeParameter):
-                    if b in idx and b in m2 and not (m2[b] is t or m2[b] == t or refsub.sub(t, m2[b])):
+                    if b in idx and b in m2 and not (m2[b] is t or m2[b] == t or refsub.sub(t, m2[b], 2)):
                         spec_bad.append((shape, rq, str(b), export.short(t), export.short(m2[b])))
                     b = b.bound
             else:
@@ -415,11 +426,48 @@ def judge_requests(run, reqs, label):
             nbad += 1
             sig = failure_signature(a["r"], meta)
             run.tally("inst_rejections", sig + "|" + meta.get("origin", "?"))
-            run.violation({"kind": "inst", "request": rq, "fails": a["r"], "text": meta.get("text"),
-                           "origin": meta.get("origin"),
-                           "note": "a result of _compute_type_variable_assignments that the verified checker instOK rejects"},
-                          signature=sig)
+            report(run, {"kind": "inst", "request": rq, "fails": a["r"], "text": meta.get("text"),
+                         "origin": meta.get("origin"),
+                         "note": "a result of _compute_type_variable_assignments that the verified checker instOK rejects"}, sig)
     return nbad
+
+
+def stream_witness(run):
+    """the declaration of theorem compute_within_bounds_counterexample_shape on the real code:
+    Dir<P : Number, Q : P, R> with an empty variance-choice map, over a fixed range of RNG seeds"""
+    import src.ir.types as tp
+    import src.ir.type_utils as tu
+    from src import utils
+    hits = 0
+    reqs = []
+    for lang in ("kotlin", "java"):
+        bt = gen_types.factory(lang)
+        num = bt.get_number_type()
+        p0 = tp.TypeParameter("P", tp.Invariant, num)
+        p1 = tp.TypeParameter("Q", tp.Invariant, p0)
+        p2 = tp.TypeParameter("R", tp.Invariant, None)
+        con = tp.TypeConstructor("Dir", [p0, p1, p2], [bt.get_any_type()])
+        types = [t for t in bt.get_non_nothing_types() if not t.is_type_constructor()]
+        rec = inst_lib.Recorder(bt.get_any_type(), limit=10 ** 6, origin="witness:" + lang)
+        rec.install()
+        old = set_dis((0, 0))
+        try:
+            for s in range(60):
+                utils.random.r.seed(s)
+                t, sigma = tu.instantiate_type_constructor(con, list(types), variance_choices={})
+                if isinstance(sigma[p0], tp.WildCardType):
+                    hits += 1
+        finally:
+            set_dis(old)
+            rec.uninstall()
+        reqs += rec.requests
+    nbad = judge_requests(run, reqs, "witness")
+    run.tally("witness", "reproduced" if hits else "not-reproduced")
+    run.log("witness Dir<P : Number, Q : P, R>: %d of %d instantiations project P (inst.ok rejects %d)%s"
+            % (hits, len(reqs), nbad, "" if hits else " — the recorded finding is not reproduced on this tree"))
+    if bool(hits) != bool(nbad):
+        run.broken.append({"obligation": "witness of compute_within_bounds_counterexample_shape: inst.ok and the direct "
+                                         "observation disagree", "detail": [hits, nbad]})
 
 
 def stream_synthetic(run):
@@ -433,9 +481,9 @@ def stream_synthetic(run):
         for (p, clause) in c["judge"]:
             njudge += 1
             run.tally("py_judge", clause)
-            run.violation({"kind": "py_judge", "text": c["text"], "param": p, "clause": clause, "entry": c["fn"],
-                           "note": "independent judge (inst_lib.py_judge) on the real objects"},
-                          signature="instantiation:py-judge:" + clause)
+            report(run, {"kind": "py_judge", "text": c["text"], "param": p, "clause": clause, "entry": c["fn"],
+                         "note": "independent judge (inst_lib.py_judge) on the real objects"},
+                   "instantiation:py-judge:" + clause)
     run.log("synthetic: %d helper calls (%d raised), %d recorded _compute calls, inst.ok rejects %d, python judge flags %d"
             % (len(calls), nexc, len(reqs), nbad, njudge))
 
@@ -471,10 +519,10 @@ def stream_generator(run):
             for (p, clause) in j:
                 njudge += 1
                 run.tally("py_judge", clause)
-                run.violation({"kind": "py_judge", "text": rq["meta"].get("text"), "param": p, "clause": clause,
-                               "program": rq["meta"]["program"], "request": rq,
-                               "note": "independent judge (inst_lib.py_judge) on the real objects"},
-                              signature="instantiation:py-judge:" + clause)
+                report(run, {"kind": "py_judge", "text": rq["meta"].get("text"), "param": p, "clause": clause,
+                             "program": rq["meta"]["program"], "request": rq,
+                             "note": "independent judge (inst_lib.py_judge) on the real objects"},
+                       "instantiation:py-judge:" + clause)
     nbad = judge_requests(run, reqs, "generator")
     run.log("generator: %d programs, %d _compute calls (%d recorded), inst.ok rejects %d, python judge flags %d"
             % (nprog, ncalls, len(reqs), nbad, njudge))
@@ -490,6 +538,7 @@ def check(run):
     stream_has_bound_of(run, 25 if q else 150)
     stream_available_types(run, 25 if q else 150)
     stream_update_bound_rec(run, 25 if q else 150)
+    stream_witness(run)
     stream_synthetic(run)
     stream_generator(run)
     run.cov["rule"] = ("one case per input class of _get_type_arg_variance / per leaf-function call / per recorded "
